@@ -274,7 +274,93 @@ def rules_old(run):
     run.check(not d, r, pre.short, "preconditions do not see '__old__'", "preconditions expose '__old__'", P)
 
 
+def rules_predicates(run):
+    r = run.rule('C08.7', 'the predicates conditions are written with mean what the documentation says: active(n) = n is in the configuration, received(n) = n is the '
+                          'name of the event, sent(n) = n names an event sent during the current step (_sent_events: cleared when a step starts, one entry per raised event)')
+    prog = run.prog
+    ci = prog.cls('PythonEvaluator')
+    count = {'active': 0, 'received': 0, 'sent': 0}
+    for m in ci.methods.values():
+        for d in [x for x in q.walk(m.node) if isinstance(x, ast.Dict)]:
+            for k, v in zip(d.keys, d.values):
+                nm = q.const_str(k) if k is not None else None
+                if nm not in count:
+                    continue
+                count[nm] += 1
+                lam = strip_cast(v)
+                good = isinstance(lam, ast.Lambda) and len(lam.args.args) == 1
+                if good:
+                    p_ = lam.args.args[0].arg
+                    c = q.canon_atom(lam.body)
+                    if nm == 'active':
+                        good = c is not None and c[0] == 'in' and c[3] and c[1] == p_ and c[2] in ('self._interpreter.configuration', 'self._interpreter._configuration')
+                    elif nm == 'received':
+                        good = c is not None and c[0] == '==' and c[3] and p_ in (c[1], c[2]) and ({c[1], c[2]} - {p_}) <= {"getattr(event, 'name', None)", 'event.name'}
+                    else:
+                        b = strip_cast(lam.body)
+                        good = c is not None and c[0] == 'in' and c[3] and c[1] == p_ and isinstance(b, ast.Compare)
+                        if good:
+                            coll = strip_cast(b.comparators[0])
+                            good = isinstance(coll, (ast.ListComp, ast.GeneratorExp, ast.SetComp)) and len(coll.generators) == 1 and not coll.generators[0].ifs and \
+                                q.unparse(coll.generators[0].iter) == 'self._interpreter._sent_events' and isinstance(coll.generators[0].target, ast.Name) and \
+                                q.unparse(coll.elt) == coll.generators[0].target.id + '.name'
+                run.check(good, r, m.short, '%s() has its documented meaning' % nm, '%s is defined as %s' % (nm, q.unparse(v)[:70]), v)
+    run.floor(count['active'], 2, r, "exposures of 'active'")
+    run.floor(count['received'], 3, r, "exposures of 'received'")
+    run.floor(count['sent'], 3, r, "exposures of 'sent'")
+    # _sent_events: who writes it, and how
+    writers = {}
+    for f in prog.functions():
+        if f.outer is not None:
+            continue
+        for c, fld, kind, node in prog.direct_writes(f):
+            if c == 'Interpreter' and fld == '_sent_events':
+                writers.setdefault(f.short, []).append((kind, node))
+    run.check(sorted(writers) == ['Interpreter.__init__', 'Interpreter._apply_step', 'Interpreter.execute_once'], r, 'Interpreter', '_sent_events written by __init__, execute_once and _apply_step only',
+              'writers: %s' % sorted(writers), None)
+    A = ApplyStep(run, r)
+    apps = [n for k, n in writers.get('Interpreter._apply_step', []) if k == 'mut:append']
+    run.check(len(apps) == 1 and q.in_node(apps[0], A.send_loop) and not guards(apps[0], stop=A.send_loop) and isinstance(A.send_loop.target, ast.Name)
+              and apps[0].args and q.unparse(apps[0].args[0]) == A.send_loop.target.id, r, A.fi.short, 'every raised event is recorded in _sent_events', 'the record of sent events is incomplete', A.F)
+    eo = run.fn('Interpreter.execute_once')
+    clr = [n for k, n in writers.get('Interpreter.execute_once', []) if k == 'mut:clear']
+    comp = q.calls_to(run, eo.node, {'Interpreter._compute_steps'})
+    run.check(len(clr) == 1 and not guards(clr[0]) and all(q.strictly_before(eo.node, clr[0], c_) for c_ in comp) and bool(comp), r, eo.short, '_sent_events is emptied when a step starts',
+              'events of an earlier step stay visible to sent()', eo.node)
+
+
+def rules_base_evaluator(run):
+    r = run.rule('C08.8', 'the default implementations in Evaluator (used by every evaluator that only provides _evaluate_code / _execute_code): conditions of a transition see '
+                          'the event, conditions of a state do not; every condition of the kind is evaluated')
+    prog = run.prog
+    ci = prog.cls('Evaluator')
+    for kind in ('preconditions', 'invariants', 'postconditions'):
+        m = ci.methods.get('evaluate_' + kind)
+        run.anchor(m is not None, r, 'Evaluator.evaluate_' + kind)
+        M = m.node
+        op, evp = q.param_names(M)[1:3]
+        ecalls = [c for c in q.calls(M) if isinstance(c.func, ast.Attribute) and c.func.attr == '_evaluate_code']
+        run.check(len(ecalls) == 1, r, m.short, 'one _evaluate_code site', 'found %d' % len(ecalls), M)
+        for c in ecalls:
+            ac = q.arg(c, None, 'additional_context')
+            cs = q.cases(M, ac) if ac is not None else []
+            good = len(cs) == 2
+            for v, at in cs:
+                v = strip_cast(v)
+                tr = any(a[0] == 'truthy' and a[1].replace(' ', '') == 'isinstance(%s,Transition)' % op for a in at)
+                ntr = any(a[0] == 'falsy' and a[1].replace(' ', '') == 'isinstance(%s,Transition)' % op for a in at)
+                if tr:
+                    good = good and isinstance(v, ast.Dict) and [q.const_str(k) for k in v.keys] == ['event'] and q.unparse(v.values[0]) == evp
+                elif ntr:
+                    good = good and (isinstance(v, ast.Constant) and v.value is None or isinstance(v, ast.Dict) and not v.keys)
+                else:
+                    good = False
+            run.check(good, r, m.short, "'event' is exposed to the %s of transitions only" % kind, 'exposure is %s' % [(q.unparse(v)[:30], at) for v, at in cs], c)
+
+
 def check(run):
+    run.guard(rules_predicates, run)
+    run.guard(rules_base_evaluator, run)
     run.guard(rules_points, run)
     run.guard(rules_raise, run)
     run.guard(rules_old, run)
